@@ -537,3 +537,48 @@ pub fn mixed_stream(rng: &mut Rng, count: usize, max_n: usize, with_psd: bool) -
     }
     out
 }
+
+/// Sum-of-exponentials / geometric-mean style problems whose line searches need many
+/// backtracking steps (steep exponentials, data scaled by `scale`):
+///   min c'x + sum t_i  s.t.  (a_i'x + b_i, 1, t_i) in Kexp (or a power-cone row), -5 <= x <= 5
+pub fn steep_nonsym(rng: &mut Rng, n: usize, mc: usize, scale: f64, with_pow: bool) -> Prob {
+    let nv = n + mc;
+    let rows = 3 * mc + 2 * n;
+    let mut dense = vec![vec![0.0; nv]; rows];
+    let mut b = vec![0.0; rows];
+    let mut cones: Vec<SupportedConeT<f64>> = vec![];
+    for i in 0..mc {
+        let pow = with_pow && i % 2 == 1;
+        for j in 0..n {
+            dense[3 * i][j] = -scale * (2.0 * rng.unit() - 1.0);
+        }
+        b[3 * i] = scale * (2.0 * rng.unit() - 1.0);
+        if pow {
+            // (x-part + b0, 1 + small, t_i) in Kpow(alpha): |t| <= u^a v^(1-a) with u = a'x + b0 + 6 scale
+            b[3 * i] += 6.0 * scale * (n as f64 + 1.0);
+            b[3 * i + 1] = 1.0;
+            dense[3 * i + 2][n + i] = 1.0;
+            cones.push(PowerConeT(((1 + rng.below(63)) as f64) / 64.0));
+        } else {
+            b[3 * i + 1] = 1.0;
+            dense[3 * i + 2][n + i] = -1.0;
+            cones.push(ExponentialConeT());
+        }
+    }
+    for j in 0..n {
+        dense[3 * mc + j][j] = 1.0;
+        b[3 * mc + j] = 5.0;
+        dense[3 * mc + n + j][j] = -1.0;
+        b[3 * mc + n + j] = 5.0;
+    }
+    cones.push(NonnegativeConeT(2 * n));
+    let mut q = vec![1.0; nv];
+    for (i, c) in cones.iter().enumerate() {
+        if let PowerConeT(_) = c { q[n + i] = -1.0; }
+    }
+    for qj in q.iter_mut().take(n) {
+        *qj = 2.0 * rng.unit() - 1.0;
+    }
+    let label = format!("steep nonsymmetric n={} cones={} scale={} pow={}", n, mc, scale, with_pow);
+    Prob { P: CscMatrix::zeros((nv, nv)), q, A: dense_to_csc(&dense, rows, nv), b, cones, label, intent: 3 }
+}
